@@ -337,9 +337,23 @@ def budget(tier):
     return dict(examples=120000, wall=1500)
 
 
+@st.composite
+def range_text_case(draw):
+    """Arbitrary text over the notation's alphabet: whatever is accepted
+    denotes sets of two distinct real cards; whatever is not is refused with
+    ValueError."""
+    # ('?' is left out: the parser takes it for a rank and yields cards of
+    # unknown rank; that spelling is not part of the documented notation the
+    # property speaks about, so it is not judged - DESIGN 9.2)
+    text = draw(st.text(alphabet='AKQJT98765432akqtcdhs+-so ,;\t10xX',
+                        max_size=14))
+    order = draw(st.sampled_from(sorted(ORDERS)))
+    return dict(kind='range_text', text=text, order=order)
+
+
 def strategy(tier):
     return st.one_of(deal_case(), deal_case(), icm_case(), range_case(),
-                     range_deal_case())
+                     range_deal_case(), range_text_case())
 
 
 def ref_split(hts, holes, board):
@@ -408,6 +422,34 @@ def engine_shares(spec, holes, board):
 def check(case, stats):
     kind = case['kind']
     out = []
+    if kind == 'range_text':
+        text, order = case['text'], case['order']
+        stats.count('kind:range_text')
+        try:
+            got = list(parse_range(text, rank_order=RankOrder[order]))
+        except ValueError:
+            stats.count('range_text:refused')
+            return []
+        except Exception as e:  # noqa: BLE001
+            if not _is_engine_exception(e):
+                raise
+            return [V(ID, 'range', 'text_wrong_exception',
+                      f'parse_range({text!r}, {order}) raised {e!r}'
+                      ' (ValueError expected for text that is no range)')]
+        stats.count('range_text:accepted')
+        for h in got:
+            cs_ = list(h)
+            if len(cs_) != 2 or len(set(cs_)) != 2 or not all(
+                    bool(c) for c in cs_):
+                return [V(ID, 'range', 'text_element',
+                          f'parse_range({text!r}, {order}) contains {h!r}:'
+                          ' not two distinct real cards')]
+        if got:
+            stats.count('nontrivial')
+            stats.mark_nontrivial(('text', text, order))
+        stats.sample(dict(range_text=text, order=order, hands=len(got)),
+                     bool(got))
+        return []
     if kind == 'range':
         ranks = ORDERS['STANDARD']
         want = set()
